@@ -202,11 +202,11 @@ Definition publish (c : cfg) (s : gstate) (m : rmsg) : gstate :=
     let rec' := if g_rec_open s then rec_append (g_rec s) (LT i) else g_rec s in
     (* caches are fed after the fan-out *)
     let rc := if cf_rtmp_enable c then
-                let g1 := fst (gc_feed (g_rtmp_cache s) cls (LC i)) in
+                let g1 := fst (gc_feed (g_rtmp_cache s) cls (LC i) (rm_payload m)) in
                 if rm_type m =? type_metadata then gc_set_metadata g1 (lcw m i) (LC i) else g1
               else g_rtmp_cache s in
     let fc := if cf_flv_enable c then
-                let g1 := fst (gc_feed (g_flv_cache s) cls (LT i)) in
+                let g1 := fst (gc_feed (g_flv_cache s) cls (LT i) (rm_payload m)) in
                 if rm_type m =? type_metadata then gc_set_metadata g1 (LT i) (LT i) else g1
               else g_flv_cache s in
     let vk := g_video_known s || is_avc_key_seq_header m || is_hevc_key_seq_header m in
@@ -229,7 +229,7 @@ Definition ts_step (cache : gop_cache label) (pat : option label) (boundary : bo
 Definition feed_ts (c : cfg) (s : gstate) (boundary : bool) : gstate :=
   let j := g_next_ts s in
   let subs' := map (ts_step (g_ts_cache s) (g_patpmt s) boundary (LTs j)) (g_subs s) in
-  let tc := fst (gc_feed (g_ts_cache s) (if boundary then MKey else MOther) (LTs j)) in
+  let tc := fst (gc_feed (g_ts_cache s) (if boundary then MKey else MOther) (LTs j) []) in
   {| g_next := g_next s; g_next_ts := S j; g_next_pat := g_next_pat s;
      g_rtmp_cache := g_rtmp_cache s; g_flv_cache := g_flv_cache s; g_ts_cache := tc;
      g_patpmt := g_patpmt s; g_sdp := g_sdp s; g_next_sdp := g_next_sdp s; g_merge := g_merge s; g_merge_size := g_merge_size s;
